@@ -825,6 +825,19 @@ fn concurrent_callers_sampling(run: &Run, thorough: bool) {
                 let t = mktx(TxKind::Faucet, vec![], vec![out_t(1, Denom::Mel)], 0, vec![Covenant::from_ops(&[OpCode::PushI(k.into()), OpCode::PushI(1u8.into())]).to_bytes()], k.to_be_bytes().to_vec());
                 note("single-faucets-with-new-covenants", guard(|| st.apply_tx(&t)));
             }
+            // ... and a block's worth of transactions that each *spend* a coin locked by a covenant of its own (so every one of
+            // them is parsed, weighed and run): the batch is long enough for the other callers to pass by in the middle of it
+            let cov = |k: u64| Covenant::from_ops(&[OpCode::PushI((7_000_000 + k).into()), OpCode::PushI(1u8.into())]);
+            let funds: Vec<Transaction> = (0..5u64).map(|f| mktx(TxKind::Faucet, vec![], (0..250u64).map(|i| out(cov(f * 250 + i).hash(), 10, Denom::Mel)).collect(), 0, vec![], vec![0xfd, f as u8])).collect();
+            let mut fs = w_a.genesis.clone().seal(None).next_unsealed();
+            note("funding-coins-under-covenants-of-their-own", guard(|| fs.apply_tx_batch(&funds)));
+            if let Ok(sealed) = guard(|| fs.seal(None)) {
+                let spends: Vec<Transaction> = (0..1250u64).map(|k| mktx(TxKind::Normal, vec![funds[(k / 250) as usize].output_coinid((k % 250) as u8)], vec![out_t(10, Denom::Mel)], 0, vec![cov(k).to_bytes()], vec![])).collect();
+                for _ in 0..if thorough { 10 } else { 3 } {
+                    let mut st2 = sealed.next_unsealed();
+                    note("a-block-of-spends-under-covenants-of-their-own", guard(|| st2.apply_tx_batch(&spends)));
+                }
+            }
             done.store(true, Ordering::Release);
         });
         s.spawn(|| {
